@@ -176,6 +176,12 @@ inline RowBlock<IndexType, DType> RowBlockContainer<IndexType, DType>::GetBlock(
   }
   CHECK_EQ(offset.back(), index.size());
   CHECK(offset.back() == value.size() || value.size() == 0);
+  CHECK(weight.size() == 0 || weight.size() + 1 == offset.size())
+      << "weight must be given for all rows or for none";
+  CHECK(qid.size() == 0 || qid.size() + 1 == offset.size())
+      << "qid must be given for all rows or for none";
+  CHECK(field.size() == 0 || field.size() == index.size())
+      << "field must be given for all entries or for none";
   RowBlock<IndexType, DType> data;
   data.size = offset.size() - 1;
   data.offset = BeginPtr(offset);
